@@ -120,6 +120,7 @@ type sfVar struct {
 }
 
 type sfCtx struct {
+	deferred  map[int]bool // mutexes released by a deferred Unlock
 	held      map[int]int // mutex field id → 1 exclusive, 2 shared
 	onceBody  int         // once field id or -1
 	afterOnce map[int]bool
@@ -131,10 +132,13 @@ type sfCtx struct {
 }
 
 func (c *sfCtx) clone() *sfCtx {
-	n := &sfCtx{held: map[int]int{}, onceBody: c.onceBody, afterOnce: map[int]bool{}, afterCS: map[int]bool{},
+	n := &sfCtx{deferred: map[int]bool{}, held: map[int]int{}, onceBody: c.onceBody, afterOnce: map[int]bool{}, afterCS: map[int]bool{},
 		nilinit: map[string]bool{}, env: map[string]sfVar{}, fn: c.fn, fnKey: c.fnKey}
 	for k, v := range c.held {
 		n.held[k] = v
+	}
+	for k, v := range c.deferred {
+		n.deferred[k] = v
 	}
 	for k, v := range c.afterOnce {
 		n.afterOnce[k] = v
@@ -155,6 +159,7 @@ func (c *sfCtx) clone() *sfCtx {
 func (c *sfCtx) detached(suffix string) *sfCtx {
 	n := c.clone()
 	n.held = map[int]int{}
+	n.deferred = map[int]bool{}
 	n.onceBody = -1
 	n.afterOnce = map[int]bool{}
 	n.afterCS = map[int]bool{}
@@ -378,7 +383,7 @@ func genSyncFacts() (string, int, error) {
 				if !ok || fd.Body == nil {
 					continue
 				}
-				ctx := &sfCtx{held: map[int]int{}, onceBody: -1, afterOnce: map[int]bool{}, afterCS: map[int]bool{}, nilinit: map[string]bool{}, env: map[string]sfVar{}}
+				ctx := &sfCtx{deferred: map[int]bool{}, held: map[int]int{}, onceBody: -1, afterOnce: map[int]bool{}, afterCS: map[int]bool{}, nilinit: map[string]bool{}, env: map[string]sfVar{}}
 				ctx.fn = p.spec.pkg + "." + fd.Name.Name
 				if fd.Recv != nil && len(fd.Recv.List) == 1 {
 					rt := typeName(fd.Recv.List[0].Type)
@@ -392,6 +397,7 @@ func genSyncFacts() (string, int, error) {
 				}
 				st.bindParams(fd.Type, ctx, false)
 				st.walkStmts(fd.Body.List, ctx)
+				st.checkReleased(ctx, fd.Body.Rbrace)
 			}
 		}
 	}
@@ -788,6 +794,17 @@ func (st *sfState) addCall(ctx *sfCtx, what string, kind int) {
 	st.calls = append(st.calls, &sfCall{mu: mu, fnKey: ctx.fnKey, fn: ctx.fn, what: what, kind: kind})
 }
 
+// checkReleased: leaving a function while a lock taken by an explicit Lock() has no (deferred) Unlock
+func (st *sfState) checkReleased(ctx *sfCtx, p token.Pos) {
+	for m := range ctx.held {
+		if !ctx.deferred[m] {
+			pp := st.fset.Position(p)
+			rel, _ := filepath.Rel(*repo, pp.Filename)
+			st.errs = append(st.errs, fmt.Sprintf("%s:%d: %s returns with %s.%s still locked", rel, pp.Line, ctx.fn, st.fields[m].typ.name, st.fields[m].name))
+		}
+	}
+}
+
 // walkStmts walks a statement list in order, threading lock state; returns the mutexes for which a critical section
 // was opened inside (used for afterCS of the caller when the list is the body of an immediately invoked literal).
 func (st *sfState) walkStmts(list []ast.Stmt, ctx *sfCtx) map[int]bool {
@@ -829,6 +846,7 @@ func (st *sfState) walkStmt(s ast.Stmt, ctx *sfCtx, opened map[int]bool) {
 	if m, method, ok := st.lockCall(s, ctx); ok {
 		st.sites = append(st.sites, &sfSite{f: m, fn: ctx.fn, guard: "syncop", gid: -1, fnKey: ctx.fnKey, pos: st.pos(s)})
 		if _, isDefer := s.(*ast.DeferStmt); isDefer {
+			ctx.deferred[m.id] = true
 			return // held until the function returns
 		}
 		switch method {
@@ -918,6 +936,7 @@ func (st *sfState) walkStmt(s ast.Stmt, ctx *sfCtx, opened map[int]bool) {
 		for _, r := range x.Results {
 			st.visit(r, false, ctx, opened)
 		}
+		st.checkReleased(ctx, x.Pos())
 	case *ast.DeferStmt:
 		// a deferred call runs at function exit: locks held by defer-unlock are still held, explicit ones are not known
 		st.visit(x.Call, false, ctx, opened)
@@ -1049,6 +1068,7 @@ func (st *sfState) visit(e ast.Expr, write bool, ctx *sfCtx, opened map[int]bool
 		c := ctx.detached(" [func literal]")
 		st.bindParams(x.Type, c, false)
 		st.walkStmts(x.Body.List, c)
+		st.checkReleased(c, x.Body.Rbrace)
 	case *ast.StarExpr:
 		if bv, ok := st.typeOf(x.X, ctx); ok {
 			// whole-struct copy: reads every field
@@ -1112,8 +1132,12 @@ func (st *sfState) visitCall(ce *ast.CallExpr, ctx *sfCtx, opened map[int]bool, 
 		}
 		c := ctx.clone()
 		c.fn = ctx.fn + " [inline func]"
+		for m := range ctx.held { // the literal runs inline: the caller's locks stay held inside and are the caller's to release
+			c.deferred[m] = true
+		}
 		st.bindParams(fl.Type, c, false)
 		op := st.walkStmts(fl.Body.List, c)
+		st.checkReleased(c, fl.Body.Rbrace)
 		for m := range op {
 			if _, still := ctx.held[m]; !still {
 				ctx.afterCS[m] = true
